@@ -4,7 +4,7 @@ import json
 import common
 from common import cnode, cstr, cbool, enc_node
 import impl
-from impl import Document, ParserOptions, TagNode, extract, to_xml, no_gc, altered_default_filters
+from impl import Document, ParserOptions, TagNode, TextNode, extract, to_xml, no_gc, altered_default_filters
 import pp_common as pp
 
 REQ = ("From Coq Require Import List NArith ZArith.\nFrom Delb.Base Require Import PyStr.\n"
@@ -189,13 +189,36 @@ def gen_lf_indent(rng):
     return to_xml(t), (rng.choice([1, 1, 2, 3, 4]), ind)
 
 
+def load_edited(xml, edits):
+    """the document is parsed as it is, text nodes are attached next to its text nodes through the API
+    (edits: [(number of the text node in document order, 'before' | 'after', content)]), then reduced in place"""
+    doc = Document(xml)
+    with altered_default_filters():
+        texts = [n for n in doc.root.iterate_descendants() if isinstance(n, TextNode)]
+    for k, where, content in edits:
+        if k < len(texts):
+            if where == "before":
+                texts[k].add_preceding_siblings(content)
+            else:
+                texts[k].add_following_siblings(content)
+    doc.reduce_whitespace()
+    return doc
+
+
+def gen_edits(rng, xml):
+    n = xml.count(">") // 2 + 1
+    return [(rng.randrange(n), rng.choice(["before", "after"]), rng.choice([" x", "y ", " ", " z ", "w", "\n q  "]))
+            for _ in range(rng.randint(1, 4))]
+
+
 def check_docs(ctx, docs, max_sub, n0, nw, seen_rate):
-    """docs: [(kind, xml, width_hint)]"""
+    """docs: [(kind, xml, width_hint)] or [(kind, xml, width_hint, edits)] (see load_edited)"""
     items = []
     with no_gc():
-        for kind, xml, hint in docs:
+        for kind, xml, hint, *more in docs:
+            edits = more[0] if more else None
             try:
-                doc = pp.load_reduced(xml)
+                doc = pp.load_reduced(xml) if edits is None else load_edited(xml, edits)
             except Exception as e:  # noqa: BLE001
                 ctx.notes.append("generator: parser refused a document: %r" % (e,))
                 continue
@@ -226,9 +249,10 @@ def check_docs(ctx, docs, max_sub, n0, nw, seen_rate):
                     except Exception as e:  # noqa: BLE001
                         real.append(None)
                         ctx.fail("serialize raised %s: %s" % (type(e).__name__, e),
-                                 {"xml": xml, "doc": T, "subtree": rp, "indentation": i, "width": w, "align": a,
-                                  "raises": type(e).__name__}, classify)
-                items.append({"kind": kind, "xml": xml, "T": T, "rp": rp, "t": t, "g": g, "real": real, "view": view})
+                                 {"xml": xml, "api_edits": edits, "doc": T, "subtree": rp, "indentation": i, "width": w,
+                                  "align": a, "raises": type(e).__name__}, classify)
+                items.append({"kind": kind, "xml": xml, "T": T, "rp": rp, "t": t, "g": g, "real": real, "view": view,
+                              "edits": edits})
     terms = []
     for it in items:
         g0 = [o for o in it["g"] if o[2] == 0]
@@ -263,8 +287,8 @@ def check_docs(ctx, docs, max_sub, n0, nw, seen_rate):
             if real is None:
                 continue
             model, model_transparent = res[o]
-            case = {"xml": it["xml"], "doc": it["T"], "subtree": it["rp"], "tree": it["t"], "indentation": ind,
-                    "width": w, "align": align}
+            case = {"xml": it["xml"], "api_edits": it["edits"], "doc": it["T"], "subtree": it["rp"], "tree": it["t"],
+                    "indentation": ind, "width": w, "align": align}
             ctx.count(1, "%s/%s/%s" % (it["kind"], "root" if not it["rp"] else "subtree",
                                        "width0" if w == 0 else "wrapped"))
             if model != real:
@@ -276,6 +300,12 @@ def check_docs(ctx, docs, max_sub, n0, nw, seen_rate):
                                   "seenw %s %s (%d)%%Z %s %s" % (cstr(ind), cbool(align), w, cnode(it["T"]), cpath(it["rp"])))
                 seen_keys.append((case, real))
             if not reduced:
+                if not it["rp"] and o == it["g"][0]:
+                    # the property's precondition: what the implementation's whitespace reduction leaves (parser
+                    # option / Document.reduce_whitespace) is in normal form
+                    ctx.fail("the document left by the implementation's whitespace reduction is not reduced "
+                             "(reduce_model changes it): formatted output cannot be transparent for it",
+                             dict(case, impl=real), classify)
                 continue        # a sub-tree below xml:space="preserve" that is not reduced on its own: no demand
             # the property itself, on the implementation
             if real != to_xml(it["t"]):
@@ -357,6 +387,11 @@ def gen_docs(ctx, n):
         docs.append(("ns-mixed", to_xml(pp.gen_ns_decorate(ctx.rng, t)), hint))
     for _ in range(n // 12):
         docs.append(("ns-data", to_xml(pp.gen_ns_decorate(ctx.rng, pp.gen_data_tree(ctx.rng, 2))), ctx.rng.choice(WIDTHS[1:])))
+    # documents edited through the API (text nodes attached next to text nodes), then reduced in place
+    for _ in range(n // 8):
+        hint = ctx.rng.choice(WIDTHS[1:13] + [None])
+        xml = to_xml(pp.gen_mixed_tree(ctx.rng, ctx.rng.choice([1, 2]), width_hint=hint, preserve_rate=0.08))
+        docs.append(("api-edited", xml, hint, gen_edits(ctx.rng, xml)))
     for _ in range(max(4, n // 25)):
         xml, hint = gen_lf_indent(ctx.rng)
         docs.append(("lf-indent", xml, hint))
@@ -379,7 +414,8 @@ def run(ctx, args):
             rep = json.load(f)
         case = rep.get("case") or {}
         if case.get("xml"):
-            docs = [("replay", case["xml"], (case.get("width") or None, case.get("indentation")))]
+            docs = [("replay", case["xml"], (case.get("width") or None, case.get("indentation")))
+                    + ((case["api_edits"],) if case.get("api_edits") else ())]
             check_docs(ctx, docs, max_sub=50, n0=3, nw=8, seen_rate=1.0)
         return ctx.finish("replay of " + args.replay, replay_open=replay_open)
     quick = ctx.tier == "quick"
@@ -397,7 +433,9 @@ def run(ctx, args):
              "dedicated documents (text ending in a space before an element, at depth 1-5; mixed documents); mixed and "
              "conventionally laid out documents with elements in 3 and attributes in 2 namespaces, run through the models "
              "as their qualified view (Ws/Qualified.v) with the prefix table and declarations read off the real plain "
-             "serialization (root and sub-trees; re-read with the real namespace-aware parser). "
+             "serialization (root and sub-trees; re-read with the real namespace-aware parser); mixed documents parsed "
+             "without reduction, with 1-4 text nodes attached next to their text nodes through the API, then reduced with "
+             "Document.reduce_whitespace(). The reduced document itself must be in normal form (reduce_model t = t). "
              "One evaluation = one (tree, options) output compared byte for byte with the model and re-read through the "
              "real parser with ParserOptions(reduce_whitespace=True); a sample is also compared at the parsed-tree level. "
              "Non-trivial = the formatted output differs from the plain serialization; distinct by (tree, options).",
